@@ -34,7 +34,8 @@ def bounds(tier):
 
 def wrap(e):
     out = [("list", e), ("dict", L("str"), e), ("deque", e), ("ordered", L("str"), e), ("tuple", e, L("int")), ("opt", e),
-           ("dc", "mixin", ((e, "req"),)), ("seq", e), ("mapping", L("str"), e), ("mproxy", L("str"), e)]
+           ("dc", "mixin", ((e, "req"),)), ("seq", e), ("mapping", L("str"), e), ("mproxy", L("str"), e),
+           ("chain", L("str"), e), ("defaultdict", L("str"), e), ("mutmapping", L("str"), e)]
     if e == L("any"):
         out.append(("mproxy", L("any"), L("any")))      # neither keys nor values need conversion
     if e[0] != "leaf":
@@ -78,7 +79,7 @@ def expr_is_value(d, N, elem=True):
         return d[1] in ("int", "str", "any", "none", "float", "bool") or d[1] in NATIVE_LEAVES
     if k in ("list", "deque", "set", "seq", "barelist"):
         return origin_name(d) in N and expr_is_value(d[1], N)
-    if k in ("dict", "ordered", "mapping", "baredict", "mproxy"):
+    if k in ("dict", "ordered", "mapping", "baredict", "mproxy", "chain", "defaultdict", "mutmapping"):
         return origin_name(d) in N and expr_is_value(d[1], N) and expr_is_value(d[2], N)
     if k in ("union", "opt"):
         ms = space.flat_members(d)                  # typing flattens nested unions / Optional members
@@ -105,6 +106,9 @@ def containers(x, acc, any_ok=True):
         if isinstance(inner, dict):
             acc[id(inner)] = inner
         x = inner
+    if isinstance(x, collections.ChainMap):
+        containers(x.maps, acc)              # the list of maps and every map are the instance's own containers
+        return acc
     if type(x).__name__ == "Bag" and hasattr(x, "items") and isinstance(x.items, list):
         containers(x.items, acc)      # the list owned by an annotated SerializableType value
     if isinstance(x, dict):
@@ -150,7 +154,7 @@ def predict(d, v, N, shared, anyzone, ctx):
     if k in ("list", "deque", "set", "seq", "barelist"):
         for x in v:
             predict(d[1], x, N, shared, anyzone, ctx)
-    elif k in ("dict", "ordered", "mapping", "baredict", "mproxy"):
+    elif k in ("dict", "ordered", "mapping", "baredict", "mproxy", "chain", "defaultdict", "mutmapping"):
         for x in v.values():
             predict(d[2], x, N, shared, anyzone, ctx)
     elif k == "tuple":
@@ -168,7 +172,7 @@ def _mark_any(d, v, anyzone):
     elif k in ("list", "deque", "set", "seq", "barelist"):
         for x in v:
             _mark_any(d[1], x, anyzone)
-    elif k in ("dict", "ordered", "mapping", "baredict", "mproxy"):
+    elif k in ("dict", "ordered", "mapping", "baredict", "mproxy", "chain", "defaultdict", "mutmapping"):
         for x in v.values():
             _mark_any(d[2], x, anyzone)
     elif k in ("opt",):
@@ -191,9 +195,14 @@ def _any_zone_wire(d, w, zone, ctx):
     if k in ("list", "deque", "set", "seq", "barelist") and isinstance(w, list):
         for x in w:
             _any_zone_wire(d[1], x, zone, ctx)
-    elif k in ("dict", "ordered", "mapping", "baredict", "mproxy") and isinstance(w, dict):
+    elif k in ("dict", "ordered", "mapping", "baredict", "mproxy", "chain", "defaultdict", "mutmapping") and isinstance(w, dict):
         for x in w.values():
             _any_zone_wire(d[2], x, zone, ctx)
+    elif k == "chain" and isinstance(w, list):
+        for m in w:
+            if isinstance(m, dict):
+                for x in m.values():
+                    _any_zone_wire(d[2], x, zone, ctx)
     elif k == "tuple" and isinstance(w, list):
         for e, x in zip(d[1:], w):
             _any_zone_wire(e, x, zone, ctx)
